@@ -17,7 +17,7 @@ import (
 )
 
 // The universe of symbolic plain types.  Symbolically, verifNdType returns a
-// pointer type with a symbolic identity in [0,8).
+// pointer type with a symbolic identity in [0,16).
 type vT0 struct{ Tok int64 }
 type vT1 struct{ Tok int64 }
 type vT2 struct{ Tok int64 }
@@ -26,10 +26,32 @@ type vT4 struct{ Tok int64 }
 type vT5 struct{ Tok int64 }
 type vT6 struct{ Tok int64 }
 type vT7 struct{ Tok int64 }
+type vT8 struct{ Tok int64 }
+type vT9 struct{ Tok int64 }
+type vT10 struct{ Tok int64 }
+type vT11 struct{ Tok int64 }
+type vT12 struct{ Tok int64 }
+type vT13 struct{ Tok int64 }
+type vT14 struct{ Tok int64 }
+type vT15 struct{ Tok int64 }
 
-var verifPlainTypes = [8]reflect.Type{
-	reflect.TypeOf(&vT0{}), reflect.TypeOf(&vT1{}), reflect.TypeOf(&vT2{}), reflect.TypeOf(&vT3{}),
-	reflect.TypeOf(&vT4{}), reflect.TypeOf(&vT5{}), reflect.TypeOf(&vT6{}), reflect.TypeOf(&vT7{}),
+var verifPlainTypes = [16]reflect.Type{
+	reflect.TypeOf(&vT0{}),
+	reflect.TypeOf(&vT1{}),
+	reflect.TypeOf(&vT2{}),
+	reflect.TypeOf(&vT3{}),
+	reflect.TypeOf(&vT4{}),
+	reflect.TypeOf(&vT5{}),
+	reflect.TypeOf(&vT6{}),
+	reflect.TypeOf(&vT7{}),
+	reflect.TypeOf(&vT8{}),
+	reflect.TypeOf(&vT9{}),
+	reflect.TypeOf(&vT10{}),
+	reflect.TypeOf(&vT11{}),
+	reflect.TypeOf(&vT12{}),
+	reflect.TypeOf(&vT13{}),
+	reflect.TypeOf(&vT14{}),
+	reflect.TypeOf(&vT15{}),
 }
 
 type verifNdRec struct {
@@ -107,8 +129,8 @@ func verifNdBool(name string) bool { return verifNext(name, "bool") != 0 }
 func verifNdI64(name string) int64 { return verifNext(name, "i64") }
 
 // verifNdType returns an arbitrary plain value type (pointer to one of
-// vT0..vT7).  Symbolically only its identity is unknown.
-func verifNdType(name string) reflect.Type { return verifPlainTypes[verifNext(name, "type")&7] }
+// vT0..vT15).  Symbolically only its identity is unknown.
+func verifNdType(name string) reflect.Type { return verifPlainTypes[verifNext(name, "type")&15] }
 
 // verifAssume restricts the inputs considered.
 func verifAssume(c bool) {
